@@ -583,6 +583,12 @@ func classify(eng *Engine, g *OblGroup, prop string, findings []Finding, lock ma
 			return
 		}
 	}
+	// the function was verified through a helper without contract that could not be handled exactly: undecided
+	if rep := failing[0].rep; rep != nil && len(rep.Imprecise) > 0 && !g.Instances[0].obl.Cover && !strings.HasPrefix(g.Kind, "frame:global") {
+		g.Status = "undecided"
+		res.Undecided = append(res.Undecided, fmt.Sprintf("obligation=%s reason=not discharged (%s); the function calls %s - it needs a contract before this can be decided", g.Name, failing[0].job.res.Status, strings.Join(rep.Imprecise, "; ")))
+		return
+	}
 	// a failing obligation that is not in the lock list never discharged on the unchanged tree: undecided
 	if len(lock) > 0 && !inLock(lock, prop, g) {
 		g.Status = "undecided"
